@@ -167,7 +167,9 @@ def monitor(r, obs):
     cancels = {}
     subs_after = 0
     for i, (th, op, obj, val, ts) in enumerate(r.log):
-        if op == "F.cancel" and obj and obj.startswith("d") and th.startswith("sh"):
+        if op == "F.cancel" and obj and obj.startswith("d") and not th.startswith("e"):
+            # every cancel() that reaches a delegate future from the library's side counts - whichever thread issues it (the family's
+            # clients never cancel by themselves; environment threads "e*" only complete futures)
             if snap is None or i < snap["log_pos"]:
                 cancels[obj] = cancels.get(obj, 0) + 1
             else:
@@ -218,3 +220,68 @@ def describe(p):
             "env_ops=%d" % min(p["env_ops"], 4), "late" if p["late_submit"] else "nolate"]
 N_QUICK = 2000
 N_THOROUGH = 60000
+
+
+def extra(stats, tier, seed):
+    """API-level: a wrapped executor whose shutdown() RAISES (e.g. an executor with the pre-3.9 signature given cancel_futures=...).  The
+    cancel-on-shutdown executor is shut down all the same: the flag stays set (submit raises, nothing escapes a sweep) and a retried
+    shutdown() does not sweep again - every future it had returned and that was not done gets cancel() exactly once."""
+    import drive
+    from concurrent.futures import Future
+    from more_executors._impl.cancel_on_shutdown import CancelOnShutdownExecutor
+    known_patterns = set(k["pattern"] for k in drive.load_known(PROP))
+
+    def viol(what, pattern, detail=None):
+        v = {"what": what, "pattern": pattern, "detail": detail, "case": {"params": {}, "chooser": "none", "cseed": 0, "origin": "api"}}
+        if pattern in known_patterns:
+            stats.known.setdefault(pattern, v)
+        else:
+            stats.violations.append(v)
+
+    class CF(Future):
+        ncancel = 0
+
+        def cancel(self):
+            self.ncancel += 1
+            return Future.cancel(self)
+
+    class OldStyle(object):
+        def __init__(self):
+            self.futs = []
+            self.sd = []
+
+        def submit(self, fn, *a, **k):
+            f = CF()
+            self.futs.append(f)
+            return f
+
+        def shutdown(self, wait=True):          # no cancel_futures / **kwargs: the call below raises TypeError
+            self.sd.append(wait)
+    with det.atomic():
+        for running in (False, True):
+            d = OldStyle()
+            ex = CancelOnShutdownExecutor(d)
+            f1 = ex.submit(lambda: 1)
+            f2 = ex.submit(lambda: 2)
+            if running:
+                f2.set_running_or_notify_cancel()
+            stats.add([[10, 5, 1 if running else 0]], True, None, ["api:delegate-shutdown-raises"])
+            try:
+                ex.shutdown(True, cancel_futures=True)
+                first = "returned"
+            except TypeError:
+                first = "raised"
+            try:
+                f3 = ex.submit(lambda: 3)
+                viol("after a shutdown() whose delegate shutdown raised (%s), submit() returned a future (cancel() calls on it: %d): it escaped the sweep"
+                     % (first, f3.ncancel), "cos:late-submit", "delegate-shutdown-raises")
+            except RuntimeError:
+                pass
+            try:
+                ex.shutdown(True)
+            except Exception as e:
+                viol("a repeated shutdown() raised %r" % (e,), "cos:shutdown-raised", "delegate-shutdown-raises")
+            counts = [f.ncancel for f in (f1, f2)]
+            if counts != [1, 1]:
+                viol("futures not done at shutdown received %s cancel() calls (first shutdown %s, then a second one)" % (counts, first),
+                     "cos:multi-cancel" if max(counts) > 1 else "cos:escaped", "delegate-shutdown-raises")
